@@ -3,6 +3,7 @@ package checks
 import (
 	"context"
 	"fmt"
+	"math"
 	"io"
 	"strings"
 	"time"
@@ -36,8 +37,20 @@ var c11U2 = c11Universe{"u2", []ref.Value{ref.Int(-1), ref.Float(1.0), ref.Str("
 var c11U3 = c11Universe{"u3", []ref.Value{ref.Int(1), ref.Str("a"), ref.Arr(), ref.Arr(ref.Int(1), ref.Int(2), ref.Int(3)), ref.Arr(ref.Int(1)),
 	ref.NewMap(), ref.NewMap(ref.Pair{K: ref.Int(1), V: ref.Int(1)}, ref.Pair{K: ref.Int(2), V: ref.Int(2)}, ref.Pair{K: ref.Int(3), V: ref.Int(3)})}}
 
+// u4: keys nesting a large array (or equal numbers of different types) inside a small one
+var c11U4 = func() c11Universe {
+	var nine []ref.Value
+	for i := 1; i <= 9; i++ {
+		nine = append(nine, ref.Int(int64(i)))
+	}
+	big := ref.Value{Kind: ref.KArray, A: nine}
+	return c11Universe{"u4", []ref.Value{ref.Int(1), ref.Float(1.5), ref.Arr(big), ref.Arr(ref.Str("x"), big), ref.Arr(big, ref.Int(1)), big, ref.Arr(ref.Arr(big))}}
+}()
+
 func c11Univ(name string) *c11Universe {
 	switch name {
+	case "u4":
+		return &c11U4
 	case "u3":
 		return &c11U3
 	case "u1":
@@ -75,7 +88,14 @@ func c11AppendOperands(u *c11Universe) []ref.Value {
 	return ops
 }
 
+type c11Kept struct {
+	impl object.Object
+	dump string
+	how  string
+}
+
 type c11State struct {
+	kept []c11Kept // earlier values of this history that no in-place operation was applied to since: they must stay intact
 	u    *c11Universe
 	impl object.Object // object.Map normally; may degrade (nil/Null) after Rest
 	model ref.Value
@@ -85,6 +105,28 @@ type c11State struct {
 // apply performs op on both the real map and the model. Returns a violation class if an
 // immediate clause (persistence, return flag) fails.
 func (s *c11State) apply(op c11Op, operands []ref.Value) (string, string) {
+	switch op[0] {
+	case 'A', 'R', 'G':
+		// Append, Rest and Range build new maps: every map obtained earlier in this history (they may share storage)
+		// must be left as it was
+		if _, ok := s.impl.(object.Map); ok {
+			s.kept = append(s.kept, c11Kept{s.impl, obs.DumpValue(s.impl), string(op)})
+		}
+	default:
+		s.kept = nil // Set / Delete on a large map work in place by contract: whatever shares its storage may change
+	}
+	cl, det := s.apply1(op, operands)
+	if cl == "" {
+		for _, k := range s.kept {
+			if d := obs.DumpValue(k.impl); d != k.dump {
+				return "earlier-value-changed", fmt.Sprintf("the map that %s was applied to was %s and is now %s (after %s)", k.how, k.dump, d, op)
+			}
+		}
+	}
+	return cl, det
+}
+
+func (s *c11State) apply1(op c11Op, operands []ref.Value) (string, string) {
 	u := s.u
 	switch op[0] {
 	case 'L':
@@ -663,9 +705,169 @@ func c11SrcExplore(c *core.Ctx, u *c11Universe, depth int) int {
 	return len(seen)
 }
 
+// c11Alias explores, WITHOUT merging states, every history of <=depth operations starting from the large literals:
+// sharing of storage between a map and the maps derived from it is not part of the BFS state key.
+func c11Alias(c *core.Ctx, u *c11Universe, depth int) int {
+	operands := c11AppendOperands(u)
+	n := len(u.keys)
+	var ops []c11Op
+	for l := 0; l <= n; l++ {
+		for r := l; r <= n; r++ {
+			ops = append(ops, c11Op(fmt.Sprintf("G%d%d", l, r)))
+		}
+	}
+	ops = append(ops, "R")
+	for i := range operands {
+		ops = append(ops, c11Op("A"+string(rune('a'+i))))
+	}
+	for i := 0; i < n; i++ {
+		ops = append(ops, c11Op(fmt.Sprintf("S%d7", i)), c11Op(fmt.Sprintf("D%d", i)))
+	}
+	var lits []c11Op
+	all := ""
+	for i := 0; i < n; i++ {
+		all += string(rune('0' + i))
+	}
+	lits = append(lits, c11Op("L"+all), c11Op("L"+all[:n-1]), c11Op("L"+all[:5]), c11Op("L"+all[1:]))
+	if c.Quick() && u.name != "u1" {
+		lits = lits[:1]
+	}
+	count := 0
+	for _, lit := range lits {
+		enumTuples(len(ops), depth, func(idx []int) bool {
+			if len(idx) == 0 {
+				return true
+			}
+			if c.P.Evals&0xfff == 0 && c.Expired() {
+				return false
+			}
+			hist := []c11Op{lit}
+			for _, x := range idx {
+				hist = append(hist, ops[x])
+			}
+			// Range bounds must fit the current length: invalid histories are skipped by the model
+			key := c11HistStr(hist)
+			if !c.MineNoDedup("alias-"+u.name, key) {
+				return true
+			}
+			if !c11Valid(u, hist, operands) {
+				return true
+			}
+			v, _, _ := c11CheckHist(c, u, operands, hist, len(idx) == depth)
+			out := "alias-ok"
+			if v != nil {
+				out = v.Class
+			}
+			c.CountNT("alias["+u.name+"]: "+c11Describe(u, hist, operands), out, true)
+			c.P.Transitions++
+			count++
+			return true
+		})
+	}
+	return count
+}
+
+// c11Valid replays the history on the model only: Range bounds within the length.
+func c11Valid(u *c11Universe, hist []c11Op, operands []ref.Value) bool {
+	m := ref.NewMap()
+	for _, op := range hist {
+		switch op[0] {
+		case 'L':
+			m = ref.NewMap()
+			for _, ch := range op[1:] {
+				m = ref.MapSet(m, u.keys[ch-'0'], ref.Int(1))
+			}
+		case 'S':
+			m = ref.MapSet(m, u.keys[op[1]-'0'], ref.Int(int64(op[2]-'0')))
+		case 'D':
+			m, _ = ref.MapDelete(m, u.keys[op[1]-'0'])
+		case 'A':
+			m = ref.MapAppend(m, operands[op[1]-'a'])
+		case 'R':
+			if len(m.M) <= 1 {
+				m = ref.NewMap()
+			} else {
+				m = ref.Value{Kind: ref.KMap, M: append([]ref.Pair{}, m.M[1:]...)}
+			}
+		case 'G':
+			l, r := int(op[1]-'0'), int(op[2]-'0')
+			if r > len(m.M) || l > r {
+				return false
+			}
+			m = ref.Value{Kind: ref.KMap, M: append([]ref.Pair{}, m.M[l:r]...)}
+		}
+	}
+	return true
+}
+
+// c11Merge: Append / + of maps of sizes on both sides of every internal threshold whose common keys are equal but not
+// identical (1 and 1.0, 0 and -0.0): the result must not depend on the operand sizes.
+func c11Merge(c *core.Ctx) int {
+	sizes := []int{0, 1, 3, 4, 5, 8, 15, 16, 17, 33, 64, 100}
+	n := 0
+	for _, ls := range sizes {
+		for _, rs := range sizes {
+			for _, variant := range []string{"int+float", "float+int", "offset", "negzero"} {
+				key := fmt.Sprintf("merge|%d|%d|%s", ls, rs, variant)
+				if !c.MineNoDedup("merge", key) {
+					continue
+				}
+				n++
+				lk := func(i int) ref.Value { return ref.Int(int64(i)) }
+				rk := func(i int) ref.Value { return ref.Float(float64(i)) }
+				switch variant {
+				case "float+int":
+					lk, rk = rk, lk
+				case "offset": // right keys start in the middle of the left ones
+					rk = func(i int) ref.Value { return ref.Float(float64(i + ls/2)) }
+				case "negzero":
+					lk = func(i int) ref.Value {
+						if i == 0 {
+							return ref.Float(math.Copysign(0, -1))
+						}
+						return ref.Int(int64(i))
+					}
+				}
+				lm, rm := ref.NewMap(), ref.NewMap()
+				for i := 0; i < ls; i++ {
+					lm = ref.MapSet(lm, lk(i), ref.Str("l"))
+				}
+				for i := 0; i < rs; i++ {
+					rm = ref.MapSet(rm, rk(i), ref.Str("r"))
+				}
+				want := ref.Dump(ref.MapAppend(lm, rm))
+				cs := core.Case{Kind: "merge", Data: key}
+				v := c.Run(func() *core.Viol {
+					lo, ro := obs.ToObject(lm).(object.Map), obs.ToObject(rm).(object.Map)
+					lb, rb := obs.DumpValue(lo), obs.DumpValue(ro)
+					if got := obs.DumpValue(lo.Append(ro)); got != want {
+						return &core.Viol{Class: "merge-vs-reference", Detail: fmt.Sprintf("Append of %d and %d pairs (%s): %s, reference %s", ls, rs, variant, trunc(got, 300), trunc(want, 300)), Case: cs}
+					}
+					if obs.DumpValue(lo) != lb || obs.DumpValue(ro) != rb {
+						return &core.Viol{Class: "merge-mutates-operand", Detail: key, Case: cs}
+					}
+					// through source
+					x := newSess(sessCfg{})
+					r := implEval(x, "("+ref.Source(lm)+") + ("+ref.Source(rm)+")", 1000000)
+					if r.isErr || r.val != want {
+						return &core.Viol{Class: "merge-source-vs-reference", Detail: fmt.Sprintf("%s: %s %s, reference %s", key, trunc(r.val, 300), r.errText, trunc(want, 300)), Case: cs}
+					}
+					return nil
+				})
+				out := "merge-ok"
+				if v != nil {
+					out = v.Class
+				}
+				c.CountNT(key, out, true)
+			}
+		}
+	}
+	return n
+}
+
 func runC11(c *core.Ctx) {
 	var bounds []string
-	us := []*c11Universe{&c11U1, &c11U3}
+	us := []*c11Universe{&c11U1, &c11U3, &c11U4}
 	srcDepth := 3
 	if !c.Quick() {
 		us = append(us, &c11U2)
@@ -678,10 +880,15 @@ func runC11(c *core.Ctx) {
 		}
 		c.Note("api_states_"+u.name, 0)
 		bounds = append(bounds, fmt.Sprintf("API %s: full reachable state space, %d states, depth %d", u.name, n, d))
+		na := c11Alias(c, u, 3)
+		_ = na
+		bounds = append(bounds, fmt.Sprintf("API %s without merging: every history of <=3 operations (Range, Rest, Append, Set, Delete) from the large literals (4 for u1 and in the thorough tier, else the full one), every earlier value of the history re-checked after each non-mutating operation", u.name))
 		ns := c11SrcExplore(c, u, srcDepth)
 		_ = ns
 		bounds = append(bounds, fmt.Sprintf("source %s: all histories <=%d over %d operations", u.name, srcDepth, len(c11SrcOps(u))))
 	}
+	c11Merge(c)
+	bounds = append(bounds, "merges: left and right sizes in {0,1,3,4,5,8,15,16,17,33,64,100}^2 x 4 key relations (int vs equal float keys both ways, overlapping halves, -0.0 vs 0), at the API and through source")
 	c.P.Bound = strings.Join(bounds, "; ")
 }
 
